@@ -88,6 +88,9 @@ class Ctx:
 
     # ---- called by C11Selector before every select()
     def on_select(self, timeout: float | None) -> None:
+        sched = getattr(self.world, "sched", None)
+        if sched is not None and sched.active and sched.current is not None and sched.current.idx != 0:
+            return  # threads engine: a select() of the lock-holder thread, not of the judged caller (thread 0)
         if timeout is None or timeout > 0:
             self.pos_waits += 1
         if self.deadline is not None and self.world.now > self.deadline + EPS:
@@ -101,7 +104,7 @@ class Ctx:
     def end(self) -> None:
         self.deadline = None
 
-    def judge(self, op: str, budget: float | None, s: float, e: float, pos_waits: int, outcome: str, tc: float | None, sync: bool = True) -> None:
+    def judge(self, op: str, budget: float | None, s: float, e: float, pos_waits: int, outcome: str, tc: float | None, sync: bool = True, lock_waits: int = 0) -> None:
         """budget: what is left of the timeout for this call (None = unbounded); tc: when the world made it completable"""
         w = self.world
         elapsed = e - s
@@ -117,8 +120,8 @@ class Ctx:
         if elapsed > budget + EPS:
             self.fail("budget", op, f"{op} with {budget} s left of its timeout took {elapsed} virtual seconds (t={s}..{e}), outcome={outcome}")
         if budget <= 0:
-            if elapsed > 0 or (sync and pos_waits):
-                self.fail("zero-timeout-blocked", op, f"{op} with a zero budget waited: {pos_waits} select() calls with a positive wait, {elapsed} s passed")
+            if elapsed > 0 or (sync and pos_waits) or lock_waits:
+                self.fail("zero-timeout-blocked", op, f"{op} with a zero budget waited: {pos_waits} select() calls with a positive wait, {lock_waits} blocking lock waits, {elapsed} s passed")
             w.probe("zero-budget-" + outcome)
             return
         if outcome == "timeout":
@@ -245,23 +248,28 @@ def _sync_call(ctx: Ctx, op: str, budget: float | None, tc: float | None, fn: Ca
     w = ctx.world
     w.log("call", ctx.site, op, budget)
     s, p0 = ctx.begin(op, budget)
+    l0 = w.stats["lock_contention"]  # threads engine: blocking lock acquisitions (only the judged caller can contend)
+
+    def lw() -> int:
+        return w.stats["lock_contention"] - l0
+
     try:
         fn()
     except StopIteration as e:
         ctx.end()
         if not isinstance(e.__cause__, TimeoutError):
             ctx.fail("unexpected-exception", op, f"{op}: iterator stopped because of {e.__cause__!r}")
-        ctx.judge(op, budget, s, w.now, ctx.pos_waits - p0, "timeout", tc)
+        ctx.judge(op, budget, s, w.now, ctx.pos_waits - p0, "timeout", tc, lock_waits=lw())
         return "timeout"
     except TimeoutError:
         ctx.end()
-        ctx.judge(op, budget, s, w.now, ctx.pos_waits - p0, "timeout", tc)
+        ctx.judge(op, budget, s, w.now, ctx.pos_waits - p0, "timeout", tc, lock_waits=lw())
         return "timeout"
     except Exception as e:
         ctx.end()
         ctx.fail("unexpected-exception", op, f"{op} raised {type(e).__name__}: {e}")
     ctx.end()
-    ctx.judge(op, budget, s, w.now, ctx.pos_waits - p0, "value", tc)
+    ctx.judge(op, budget, s, w.now, ctx.pos_waits - p0, "value", tc, lock_waits=lw())
     return "value"
 
 
@@ -573,6 +581,159 @@ def _h_aio_iter(world: World, kind: str) -> None:
         run_async(world, main)
 
 
+# ============================================================================================== harness: lock contention
+def _h_thr(world: World, kind: str) -> None:
+    """A second simulated thread (the holder) sits inside a blocking call of the SAME client and therefore holds its
+    receive (or send) lock until virtual time L; the judged caller (thread 0) starts an operation on that lock at time s.
+
+    World model: the holder consumes the first packet / datagram (complete at L) or sends the first packet (completable
+    at L); the caller's operation needs the lock (free from L on) AND its own data (next packet complete at D >= L, resp.
+    credit for holder bytes + its own bytes), so it is completable at tc = max(L, D) = D."""
+    import threading
+    import time
+
+    from vsim.threads import Scheduler
+
+    calm = world.choose("swarm", 3) == 0
+    d, retry = _draw_common(world)
+    ctx = Ctx(world, f"thr-{kind}")
+    net = SimNet(world)
+    sched = Scheduler(world, switch_den=world.pick("switch_den", (3, 2, 6)))
+    world.sched = sched  # type: ignore[attr-defined]
+    # calm (baseline): the holder is served at once and is gone before the caller starts -> no contention
+    L = 0.0 if calm else world.pick("hold", (4, 1, 10, 30)) * d
+    s0 = world.pick("start", (1, 2, 5, 12, 40)) * d  # caller's first operation starts here (> 0: the holder owns the lock by then)
+    n = 1 + world.choose("npkt", 3)
+    values, frames = _gen_frames(world, n + 1)
+    ser = StringLineSerializer()
+    peer: Any = None
+    tcs: list[float | None] = []
+    holder_bytes = 0
+    cap = 0
+    if kind == "tcp-recv":
+        lib, ps = net.socketpair()
+        peer = Peer(world, ps)
+        f0 = frames[0]
+        if L > 0 and len(f0) > 1 and world.choose("hold.split", 2):
+            peer.write_at(L / 2, f0[:1])  # the holder wakes up once in between, still holding the lock
+            peer.write_at(L, f0[1:])
+        else:
+            peer.write_at(L, f0)
+        writes, tcs = _arrivals(world, frames[1:], d, calm)
+        for t, data in writes:  # stream order: the caller's packets follow the holder's
+            peer.write_at(L + t, data)
+        tcs = [None if t is None else L + t for t in tcs]
+    elif kind == "udp-recv":
+        lib = SimSocket(net, _socket.AF_INET, _socket.SOCK_DGRAM, 0, "lib")
+        remote = ("10.0.0.9", 9000)
+        net.bind(lib, ("10.0.0.1", 0))
+        lib.connect(remote)
+        world.at(L, lambda: net.inject_dgram(lib, values[0].encode(), remote))
+        t = L + world.pick("arr.first", (0, 1, 5)) * d
+        for i, v in enumerate(values[1:]):
+            if not calm and i == n - 1 and world.chance("arr.starve", 1, 5):
+                tcs.append(None)
+                world.fault("dgram_loss")
+                break
+            tcs.append(t)
+            world.at(t, lambda v=v: net.inject_dgram(lib, v.encode(), remote))
+            t += world.pick("arr.next", (0, 1, 4) if calm else (0, 1, 4, 20)) * d
+    else:  # tcp-send
+        cap = world.pick("cap", (16, 4, 8, 64))
+        lib, ps = net.socketpair(capacity_ab=cap)
+        peer = CreditPeer(world, ps)
+        holder_bytes = cap + 1 + world.choose("hold.extra", 2 * cap)  # does not fit: the holder has to wait for credit
+        if calm:
+            peer.grant_at(0.0, math.inf)
+        else:
+            world.fault("capacity_small")
+            world.fault("peer_stops_reading")
+            peer.grant_at(L, holder_bytes - cap)  # exactly what the holder needs, at L
+            t = L
+            for _ in range(world.choose("grants", 5)):
+                t += world.pick("grant.gap", (0, 1, 3, 10)) * d
+                peer.grant_at(t, world.pick("grant.k", (cap, 1, cap // 2, 3 * cap)))
+            peer.grant_at(t + world.pick("grant.gap", (1, 3, 10)) * d, math.inf)
+    if not calm:
+        ctx.early_den = draw_rate(world, "sw.early", (0, 0, 6, 2))
+        ctx.early_steps = (d / 4, d / 2, d, 3 * d)
+    world.notes.update(target=kind, delta=d, retry_interval=retry, lock_released_at=L, caller_starts_at=s0, completable_at=list(tcs), early_den=ctx.early_den, switch_den=sched.switch_den)
+    holder_out: list[Any] = []
+
+    with sync_engine(world, selector_cls=C11Selector), sched:
+        if kind == "tcp-recv":
+            obj: Any = TCPNetworkClient(lib, StreamProtocol(ser), retry_interval=retry)
+        elif kind == "tcp-send":
+            obj = TCPNetworkClient(lib, StreamProtocol(ser), retry_interval=retry)
+        else:
+            obj = UDPNetworkClient(lib, DatagramProtocol(ser), retry_interval=retry)
+
+        def hold() -> None:
+            try:
+                if kind == "tcp-send":
+                    obj.send_packet("h" * (holder_bytes - 1), timeout=None)
+                    holder_out.append(("sent", world.now))
+                else:
+                    holder_out.append(("got", obj.recv_packet(timeout=None), world.now))
+            except Exception as e:
+                holder_out.append(("exc", type(e).__name__, str(e)))
+
+        th = threading.Thread(target=hold, name="holder")
+        try:
+            th.start()
+            time.sleep(s0)  # virtual; everybody else runs until blocked: the holder is inside its call (or done)
+            got = 0
+
+            def tc_of(i: int) -> float | None:
+                return tcs[i] if i < len(tcs) else None
+
+            for opi in range(1 + world.choose("ops", 3)):
+                if opi:
+                    time.sleep(world.pick("pause", (0, 1, 5)) * d)
+                if kind == "tcp-send":
+                    size = world.pick("size", (cap // 2, 1, cap, cap + 1, 2 * cap + 3))
+                    packet = "m" * max(1, size - 1)
+                    assert lib.tx_pipe is not None
+                    # everything the holder has not written yet goes first (it owns the lock), then this packet
+                    before = max(lib.tx_pipe.total_written, holder_bytes)
+                    tc = peer.completable_at(world.now, before + len(packet) + 1 - cap)
+                    T = _choose_T(world, world.now, tc, d)
+                    _sync_call(ctx, "send_packet", T, tc, lambda: obj.send_packet(packet, timeout=T))
+                    continue
+                use_iter = bool(world.choose("op.iter", 2))
+                if not use_iter:
+                    T = _choose_T(world, world.now, tc_of(got), d)
+                    if _sync_call(ctx, "recv_packet", T, tc_of(got), lambda: obj.recv_packet(timeout=T)) == "value":
+                        got += 1
+                    continue
+                m = 1 + world.choose("iter.n", 3)
+                target = got + world.choose("iter.target", m)
+                T = _choose_T(world, world.now, tc_of(target), d, none_ok=all(tc_of(j) is not None for j in range(got, got + m)))
+                it = obj.iter_received_packets(timeout=T)
+                remaining = T
+                for j in range(m):
+                    if j:
+                        time.sleep(world.pick("iter.pause", (0, 1, 5)) * d)
+                    s = world.now
+                    out = _sync_call(ctx, "iter.next", remaining, tc_of(got), lambda: next(it))
+                    if remaining is not None:
+                        remaining = max(0.0, remaining - (world.now - s))
+                    if out != "value":
+                        break
+                    got += 1
+            th.join()
+        finally:
+            if world.fatal is None and th.is_alive():
+                th.join()
+            obj.close()
+    if not holder_out or holder_out[0][0] == "exc":
+        ctx.fail("unexpected-exception", "holder", f"the lock-holder thread did not complete normally: {holder_out}")
+    if abs(holder_out[0][-1] - L) > EPS and not calm:
+        from vsim.world import HarnessError
+
+        raise HarnessError(f"world model wrong: the holder finished at {holder_out[0][-1]}, expected {L}")
+
+
 HARNESSES = [
     Harness("sync-recv-endpoint", lambda w: _h_sync_recv(w, "endpoint"), weight=2),
     Harness("sync-recv-client", lambda w: _h_sync_recv(w, "client"), weight=3),
@@ -581,4 +742,7 @@ HARNESSES = [
     Harness("sync-udp", _h_sync_udp, weight=2),
     Harness("aio-iter-tcp", lambda w: _h_aio_iter(w, "tcp"), weight=2),
     Harness("aio-iter-udp", lambda w: _h_aio_iter(w, "udp"), weight=1),
+    Harness("thr-tcp-recv", lambda w: _h_thr(w, "tcp-recv"), weight=2),
+    Harness("thr-tcp-send", lambda w: _h_thr(w, "tcp-send"), weight=1),
+    Harness("thr-udp-recv", lambda w: _h_thr(w, "udp-recv"), weight=1),
 ]
